@@ -190,9 +190,10 @@ def _topological_policy(
     )
 
 
-def _judgement_grouper(judgement: DSeparationJudgement) -> tuple[Variable, Variable]:
+def _judgement_grouper(judgement: DSeparationJudgement) -> tuple[str, str]:
     """Simplify d-separation to just left & right element (for grouping left/right pairs)."""
-    return judgement.left, judgement.right
+    # keyed by str like the canonical form, so that plain and counterfactual variables can be sorted together
+    return str(judgement.left), str(judgement.right)
 
 
 def _len_lex(judgement: DSeparationJudgement) -> tuple[int, str]:
